@@ -42,15 +42,16 @@ class Timeout(Exception):
 
 
 def with_timeout(seconds, fn):
+    # CPU seconds of this process (ITIMER_VIRTUAL), not wall time: a loaded machine must not look like a non-terminating iteration
     def handler(signum, frame):
         raise Timeout()
-    old = signal.signal(signal.SIGALRM, handler)
-    signal.setitimer(signal.ITIMER_REAL, seconds)
+    old = signal.signal(signal.SIGVTALRM, handler)
+    signal.setitimer(signal.ITIMER_VIRTUAL, seconds)
     try:
         return fn()
     finally:
-        signal.setitimer(signal.ITIMER_REAL, 0)
-        signal.signal(signal.SIGALRM, old)
+        signal.setitimer(signal.ITIMER_VIRTUAL, 0)
+        signal.signal(signal.SIGVTALRM, old)
 
 
 # ------------------------------------------------------------------------------------------------
